@@ -81,9 +81,14 @@ class _Auxiliar(BaseModel):
         """
         if isinstance(value, str):
             try:
-                value = json.loads(value)
+                decoded = json.loads(value)
             except Exception:
                 return value
+            if isinstance(decoded, str):
+                # a JSON string literal encodes text again: decoding it here would be repeated, one layer per validation,
+                # each time the dumped model is validated again (as resolve and expand_actions do)
+                return value
+            value = decoded
         if value == {}:
             # every field of StatementCondition is optional: an empty object is not a condition block
             raise ValueError("An empty object is not an instance of any known property")
